@@ -463,9 +463,38 @@ def twin_tree_variants(depth):
     return text
 
 
+def chain_variants(depth):
+    """A composeinfo whose variants form one chain A, A-A, A-A-A, ... (every level names its one child)."""
+    variants, uid = {}, "A"
+    for level in range(depth):
+        e = {"id": "A", "uid": uid, "name": "A", "type": "variant", "arches": ["x86_64"], "paths": {}}
+        if level < depth - 1:
+            e["variants"] = ["A"]
+        variants[uid] = e
+        uid += "-A"
+    return json.dumps({"header": {"type": "productmd.composeinfo", "version": "1.2"},
+                       "payload": {"compose": {"id": "T-1.0-20240101.0", "type": "production", "date": "20240101", "respin": 0},
+                                   "release": {"name": "Test", "short": "T", "version": "1.0", "type": "ga"}, "variants": variants}})
+
+
+def chain_tree_variants(depth):
+    """The same chain in a current .treeinfo."""
+    text = ("[header]\nversion = 1.2\ntype = productmd.treeinfo\n[release]\nshort = F\nversion = 1\nname = F\n"
+            "[tree]\narch = x86_64\nbuild_timestamp = 1\nplatforms = x86_64\nvariants = A\n")
+    uid = "A"
+    for level in range(depth):
+        text += "[variant-%s]\nid = A\nuid = %s\nname = A\ntype = variant\n" % (uid, uid)
+        if level < depth - 1:
+            text += "variants = %s-A\n" % uid
+        uid += "-A"
+    return text
+
+
 CHEAP_FAMILIES = (("composeinfo-twin-variants", twin_variants, "productmd.composeinfo.ComposeInfo", (12, 24), (8, 12, 16, 20, 24, 30)),
                   ("composeinfo-prefix-chain", shared_children, "productmd.composeinfo.ComposeInfo", (12, 24), (8, 12, 16, 20, 24, 30)),
-                  ("treeinfo-twin-variants", twin_tree_variants, "productmd.treeinfo.TreeInfo", (12, 24), (8, 12, 16, 20, 24, 30)))
+                  ("treeinfo-twin-variants", twin_tree_variants, "productmd.treeinfo.TreeInfo", (12, 24), (8, 12, 16, 20, 24, 30)),
+                  ("composeinfo-variant-chain", chain_variants, "productmd.composeinfo.ComposeInfo", (12, 26), (8, 12, 16, 20, 24, 30, 40)),
+                  ("treeinfo-variant-chain", chain_tree_variants, "productmd.treeinfo.TreeInfo", (12, 26), (8, 12, 16, 20, 24, 30, 40)))
 
 
 def evaluate_fanout(cap=10.0, quick=False):
